@@ -14,8 +14,8 @@ import random
 from . import catalogue as C
 from . import profiles as P
 
-N_MODEL_SLOTS = 4
-N_DATA_SLOTS = 6
+N_MODEL_SLOTS = 6
+N_DATA_SLOTS = 9
 MODES = ("C01", "C02", "C03", "C04", "C05")
 
 # rough cost (seconds on one core) used only to keep runs short
@@ -135,7 +135,9 @@ class Gen:
         # a small pool of meters per run, so that objects and keys are shared and repeated
         self.pool = {}
         for f in fams:
-            self.pool[f] = [self._new_base(f) for _ in range(r.choice([1, 2, 2, 3]))]
+            self.pool[f] = []
+            for _ in range(r.choice([1, 2, 2, 3])):
+                self.pool[f].append(self._new_base(f))
 
     def _data_fam(self, fam):
         return P.FAMILIES[fam][1]
@@ -173,6 +175,11 @@ class Gen:
             return self._portfolio_base(dfam, r.choice(PORTFOLIO[dfam]))
         if rec["entry"] == "series" and dfam != "hourly" and r.random() < 0.3:
             rec["feed"] = r.choice([1, 2, 3])   # another legal shape of the two series (UTC weather feed, frames, own names)
+        peers = [b for b in getattr(self, "pool", {}).get(fam, []) if b.get("src") != "sample" and b["tz"] in C.LOOKALIKE]
+        if peers and r.random() < 0.3:
+            # a meter in another zone with the same standard offset as a meter already in the pool (one of them without
+            # DST): the two baselines begin and end at the same instants and have the same number of rows
+            rec["tz"] = r.choice(C.LOOKALIKE[r.choice(peers)["tz"]])
         return rec
 
     @staticmethod
@@ -308,12 +315,13 @@ class Gen:
         self.emit("PREDICT", **args)
         self.cost += PRED_COST.get(fam, 0.3) * (2 if ab else 1)
 
-    def store(self, mslot):
+    def store(self, mslot, form=None):
         r = self.rng
         m = self.models.get(mslot)
         doc = f"doc{self.n_docs}"
         self.n_docs += 1
-        form = "json" if self.backend == "fleetsim" else _wchoice(r, [("json", 3), ("dict", 1)])
+        drawn = "json" if self.backend == "fleetsim" else _wchoice(r, [("json", 3), ("dict", 1)])
+        form = form or drawn
         self.emit("STORE", m=mslot, doc=doc, form=form)
         if m and m.get("fitted"):
             self.docs[doc] = dict(m)
@@ -376,6 +384,16 @@ class Gen:
             # every crash point of one to_json and one from_dict of this model
             self.emit("SERIAL_ABORT_SWEEP", m=m0, exc=r.choice(["MemoryError", "KeyboardInterrupt"]))
             self.cost += 1.0
+            # another model of the family is fitted while the original lives on; the stored model, read back, must
+            # still predict like the original
+            mfam = self.models[m0]["fam"]
+            if FIT_COST.get((mfam, self.models[m0]["profile"]), FIT_COST.get(mfam, 1)) <= 2.5 or mfam == "caltrack":
+                ob = self._like_base(mfam, self.models[m0]["profile"], base0)
+                dbo = self.make_data(ob)
+                self.fit(mfam, dbo, profile=self.models[m0]["profile"], ignore=True, allow_abort=False)
+                mlo = self.load(doc)
+                self.predict(mlo, ds[0], ignore=True)
+                self.predict(m0, ds[0], ignore=True)
             if self.swarm["faults"]["crash"]:
                 self.crash()
             # a restored object meets a short window first and a longer one afterwards, twice over
@@ -384,6 +402,10 @@ class Gen:
             d_l = self.make_data(self._reporting(base0, obs="present", span=long_span))
             self.predict(m1, d_s, ignore=True)
             self.predict(m1, d_l, ignore=True)
+            if base0.get("src") != "sample":
+                # the same period under another weather scenario (same timestamps, same row count, other temperatures)
+                d_w = self.make_data(dict(self.data[d_l], wx=1))
+                self.predict(m1, d_w, ignore=True)
             doc2 = self.store(m1)
             # the second generation comes back from a store that normalises JSON (member order, whitespace)
             m2 = self.load(doc2, form="json_sorted")
@@ -412,6 +434,25 @@ class Gen:
             self.predict(m0, d1, ignore=True)
             self.predict(m0, dm, ignore=True)
             self.predict(m0, ds[0], ignore=True)
+            if base0.get("src") != "sample":
+                # the same period under another weather scenario (same timestamps, same row count, other temperatures)
+                dw = self.make_data(dict(self.data[dm], wx=1))
+                self.predict(m0, dw, ignore=True)
+                self.predict(m0, dm, ignore=True)
+            mfam = self.models[m0]["fam"]
+            if FIT_COST.get((mfam, self.models[m0]["profile"]), FIT_COST.get(mfam, 1)) <= 2.5 or mfam == "caltrack":
+                # a second model of the family (another meter, look-alike zone where there is one) is fitted and used
+                # while the first lives on
+                ob = self._like_base(mfam, self.models[m0]["profile"], base0)
+                if ob.get("src") != "sample" and base0.get("tz") in C.LOOKALIKE and r.random() < 0.6:
+                    ob["tz"] = r.choice(C.LOOKALIKE[base0["tz"]])
+                dbo = self.make_data(ob)
+                mo = self.fit(mfam, dbo, profile=self.models[m0]["profile"], ignore=True, allow_abort=False)
+                self.predict(mo, dbo, ignore=True)
+                self.predict(m0, ds[0], ignore=True)
+                bs0 = self._data_for(m0, "baseline")
+                if bs0:
+                    self.predict(m0, bs0[0], ignore=True)
             if self.models[m0]["fam"] != "caltrack":
                 # every crash point of one short predict
                 self.emit("ABORT_SWEEP", m=m0, d=d1, exc=r.choice(["MemoryError", "KeyboardInterrupt"]))
@@ -440,6 +481,17 @@ class Gen:
             self.predict(m1, d1, ignore=True)
             self.predict(m1, dm, ignore=True)
             self.predict(m1, ds[0], ignore=True)
+            mm = self.models[m1]
+            if mm["fam"] != "caltrack" and FIT_COST.get((mm["fam"], mm["profile"]), FIT_COST.get(mm["fam"], 1)) <= 2.5:
+                # one document held as a dict by the caller, read back twice; one of the two objects is fitted again on
+                # another meter: the other object, and the caller's document, must not notice
+                docd = self.store(m1, form="dict")
+                ma = self.load(docd, form="dict")
+                mb = self.load(docd, form="dict")
+                dbl = self.make_data(self._like_base(mm["fam"], mm["profile"], base0))
+                self.fit(mm["fam"], dbl, profile=mm["profile"], ignore=True, mslot=ma, reuse=True, allow_abort=False)
+                self.emit("INSPECT", m=mb)
+                self.predict(mb, ds[0], ignore=True)
             self._second_restored(m1, base0)
         elif mode == "C03":
             self.store(m0)
